@@ -152,6 +152,11 @@ func (b *opBody) step() (ev string, done bool) {
 		if t != "" {
 			s = "event: " + t + "\n"
 		}
+		if t == evTypes[1] {
+			// events of the second type carry an ID of their own; the others inherit the last one (also across a
+			// reconnection, where the first event may well have none)
+			s += fmt.Sprintf("id: i%d\n", b.nev)
+		}
 		// the trailing ':' lets the scanner see that the blank line is complete; it opens a comment line that
 		// the next chunk closes
 		return fmt.Sprintf("\n%sdata: %d\n\n:", s, b.nev), false
